@@ -5,7 +5,7 @@ CHECK = {
     "tests": [
         T("schedsim", "TestC05RoutingAndDrains",
           {"checks": 1500, "shards": 4, "timeout": 600},
-          {"checks": 25000, "shards": 16, "timeout": 3000}),
+          {"checks": 15000, "shards": 16, "timeout": 3000}),
         T("schedsim", "TestC05Regress.*",
           {"checks": 1, "shards": 1, "timeout": 120},
           {"checks": 1, "shards": 1, "timeout": 120}, plain=True),
